@@ -629,3 +629,28 @@ func TestKnownDoubleCommit(t *testing.T) {
 	}
 	t.Fatalf("%s", what)
 }
+
+// TestRegressCommitReadFailureSeveralPages: a commit that lists the splits in pages of one key and whose
+// first read of a split descriptor fails must report the failure - not wait for ever for its own key
+// listing stages (the stage that merges running/done keys had no way to learn that its consumer was gone)
+func TestRegressCommitReadFailureSeveralPages(t *testing.T) {
+	n := 40
+	if hx.Thorough() {
+		n = 400
+	}
+	for i := 0; i < n; i++ {
+		c := caseT{Actors: []string{"splitB", "splitE", "splitA1"}, Choices: []int{5, 1, 5}, Phase2: []string{"commit", "commit"}, Batch: 1 + i%2,
+			P2Faults: []*faultT{{Key: []string{"split-done", "split-"}[i%2], Nth: 1 + (i/2)%3}, nil}}
+		hx.Journal(c)
+		var out runOutcome
+		err, hung, panicked := hx.Guard(20*time.Second, func() error {
+			var e error
+			out, e = runCase(c, nil)
+			return e
+		})
+		if hung || panicked || err != nil {
+			t.Fatalf("%v (hung=%v panicked=%v)", err, hung, panicked)
+		}
+		stats.Case("pinned read failure "+out.sig, true, func() interface{} { return c })
+	}
+}
